@@ -17,13 +17,9 @@ set_option Elab.async false
 namespace KlogV.Regexes
 open KlogV.Rx
 
-theorem year : Tie Gen.rx_service_period_yearPattern Gen.rx_service_period_yearPattern_anchors Gen.rx_service_period_yearPattern_unsupported Expect.year true true := by
-  decide +kernel
-theorem month : Tie Gen.rx_service_period_monthPattern Gen.rx_service_period_monthPattern_anchors Gen.rx_service_period_monthPattern_unsupported Expect.month true true := by
-  decide +kernel
-theorem quarter : Tie Gen.rx_service_period_quarterPattern Gen.rx_service_period_quarterPattern_anchors Gen.rx_service_period_quarterPattern_unsupported Expect.quarter true true := by
-  decide +kernel
-theorem week : Tie Gen.rx_service_period_weekPattern Gen.rx_service_period_weekPattern_anchors Gen.rx_service_period_weekPattern_unsupported Expect.week true true := by
-  decide +kernel
+theorem year : tied Gen.allRegexes Expect.year true true = true := by decide +kernel
+theorem month : tied Gen.allRegexes Expect.month true true = true := by decide +kernel
+theorem quarter : tied Gen.allRegexes Expect.quarter true true = true := by decide +kernel
+theorem week : tied Gen.allRegexes Expect.week true true = true := by decide +kernel
 
 end KlogV.Regexes
